@@ -466,6 +466,45 @@ def minimise_os(sim, runs, viol):
     return None, None, n0, n0
 
 
+MIRI_FLOAT = "-Zmiri-deterministic-floats"
+
+
+def miri_sim(args, flags, timeout=1200):
+    """Run the simulator binary itself under Miri (own target dir, built on first use)."""
+    e = env()
+    e["MIRIFLAGS"] = "-Zmiri-disable-isolation %s %s" % (MIRI_FLOAT, flags)
+    p = subprocess.run(["cargo", "+nightly", "miri", "run", "--offline", "--"] + args, cwd=SIM_DIR, env=e, stdout=subprocess.PIPE, stderr=subprocess.STDOUT, text=True, timeout=timeout)
+    return p.returncode, p.stdout
+
+
+def miri_pin(sim, text, viol):
+    """A violation found with OS-scheduled threads has no exact replay. Miri's scheduler is seeded:
+    search its seeds for one under which the same script shows the same violation; that seed is an
+    exactly repeatable schedule. Loops are shortened (Miri preempts between basic blocks, a few
+    iterations are plenty). Returns a dict for the replay file or None."""
+    if viol["obligation"] == "P" or not viol.get("key"):
+        return None
+    key = viol["key"]
+    short = re.sub(r"q\*(\d+)", lambda m: "q*%d" % min(int(m.group(1)), 12), text)
+    path = os.path.join(sim.workdir, "pin.script")
+    with open(path, "w") as f:
+        f.write(short)
+    try:
+        rc, out = miri_sim(["single"] + key.split(), "-Zmiri-seed=0", timeout=900)
+        m = re.search(r"^S (\S) ([0-9a-f]{16}) ", out, re.M)
+        if not m:
+            return None
+        cold = m.group(1) + m.group(2)
+        for rate in (0.2, 0.5):
+            rc, out = miri_sim(["replay", "--script", path, "--expect-key", key, "--expect-answer", cold], "-Zmiri-many-seeds=0..32 -Zmiri-preemption-rate=%s" % rate)
+            ms = re.search(r"FAILING SEED:\s*(\d+)", out)
+            if ms and "UNEXPECTED-ANSWER" in out:
+                return {"miri_seed": int(ms.group(1)), "preemption_rate": rate, "script": short, "cold_answer_under_miri": cold, "cmd": "cd /verif/sim && MIRIFLAGS='-Zmiri-disable-isolation %s -Zmiri-seed=%s -Zmiri-preemption-rate=%s' cargo +nightly miri run --offline -- replay --script <script> --expect-key '%s' --expect-answer %s" % (MIRI_FLOAT, ms.group(1), rate, key, cold)}
+    except subprocess.TimeoutExpired:
+        return None
+    return None
+
+
 def classify(viol, text, info):
     """Refine the obligation label from what the minimised history looks like."""
     ob = viol["obligation"]
@@ -704,8 +743,20 @@ def run_check(tier, seed):
         a = [l for l in open(det_outs[0]).read().splitlines() if l.startswith("D ")]
         b = [l for l in open(det_outs[1]).read().splitlines() if l.startswith("D ")]
         free = sum(1 for x, y in zip(a, b) if " FREE " in x or " FREE " in y)
-        det_ok = len(a) == len(b) and all(x == y for x, y in zip(a, b) if " FREE " not in x and " FREE " not in y)
-        det_n = len(a) - free
+        if free or len(a) != len(b):
+            # a wall-clock fallback (free run after a stall, watchdog) happened in one of the copies:
+            # only possible on a tree with pathologically slow or blocking operations; the copies
+            # are then not comparable run by run. Compare the common prefix before the first one.
+            n = 0
+            for x, y in zip(a, b):
+                if " FREE " in x or " FREE " in y:
+                    break
+                n += 1
+            det_ok = a[:n] == b[:n]
+            det_n = n
+        else:
+            det_ok = a == b
+            det_n = len(a)
     except Exception:  # noqa
         det_n = 0
     if det_ok is False:
@@ -805,6 +856,7 @@ def run_check(tier, seed):
     cands.sort(key=cand_rank)
     t_report = time.time()
     report_budget = 200  # seconds for confirming and minimising everything together
+    pinned_once = [False]
     for c in cands:
         if confirmed and time.time() - t_report > report_budget:
             break
@@ -834,6 +886,13 @@ def run_check(tier, seed):
         rec = {"property": "C10", "obligation": ob, "query": c["key"], "detail": c["detail"], "source": c["source"], "seed": seed, "tier": tier, "expected_from": minfo.get("expected_from", ""), "expected": strip(minfo.get("expected")), "got": strip(minfo.get("got")), "where": minfo.get("where", ""), "original_ops": n0, "minimised_ops": n1, "script": mtext, "replay_cmd": "python3 /verif/check.py C10 --replay <this file>"}
         if "policy=os" in mtext:
             rec["schedule"] = "threads scheduled by the operating system (stress sub-check): the replay is repeated until the violation shows (it did after %s of at most 20 tries); see DESIGN.md 3.7b" % minfo.get("os_tries", "?")
+            if not pinned_once[0] and count_ops(parse_script(mtext)) <= 6:
+                pinned_once[0] = True
+                tlog("searching Miri seeds for an exactly repeatable schedule")
+                pin = miri_pin(sim, mtext, c)
+                tlog("miri pin: %s" % (pin and pin["miri_seed"]))
+                if pin:
+                    rec["exact_replay_under_miri"] = pin
         if k:
             known_hits.append((k, rec))
             continue
@@ -1045,6 +1104,20 @@ def replay_file(path):
     build()
     work = os.path.join(ROOT, "work", "replay_%d" % os.getpid())
     sim = Sim(work)
+    pin = rec.get("exact_replay_under_miri")
+    if pin:
+        # the exact replay: one Miri seed = one schedule
+        ppath = os.path.join(work, "pin.script")
+        with open(ppath, "w") as f:
+            f.write(pin["script"])
+        rc, out = miri_sim(["replay", "--script", ppath, "--expect-key", rec["query"], "--expect-answer", pin["cold_answer_under_miri"]], "-Zmiri-seed=%s -Zmiri-preemption-rate=%s" % (pin["miri_seed"], pin["preemption_rate"]))
+        print("\n".join(l for l in out.splitlines() if l.startswith(("RUN", "E ", "UNEXPECTED"))))
+        if "UNEXPECTED-ANSWER" in out:
+            print("VIOLATION property=C10 replay=%s" % path)
+            print("  reproduced exactly under Miri seed %s (preemption rate %s): query `%s` differs from its answer alone" % (pin["miri_seed"], pin["preemption_rate"], rec["query"]))
+            shutil.rmtree(work, ignore_errors=True)
+            sys.exit(1)
+        print("the pinned Miri schedule does not show it on this tree; trying OS-scheduled repetitions")
     viol = {"obligation": "P" if rec["obligation"] == "P" else ("R" if rec["obligation"] == "R" else "A"), "key": rec["query"], "detail": rec.get("detail", "")}
     if rec["obligation"] == "P":
         viol["detail"] = (rec.get("got") or {}).get("text", "") or rec.get("detail", "")
